@@ -27,12 +27,23 @@ def install(counter, fault=None):
     for f in faults:
         f.setdefault("fired", False)
 
+    kind_count = {}
+
     def op(kind, a="", b=""):
         k_all, k_co = counter["n"], counter["co"]
+        in_scope_kind = None
         for f in faults:
             if f["fired"]:
                 continue
-            if f.get("scope", "all") == "all":
+            if "nth" in f:
+                # {"kind": "open", "nth": j}: the j-th operation of that kind (in the given scope) fails
+                if f.get("kind") != kind or (f.get("scope", "all") != "all" and not state["in_co"]):
+                    continue
+                if in_scope_kind is None:
+                    in_scope_kind = kind_count.get((kind, f.get("scope", "all")), 0)
+                    kind_count[(kind, f.get("scope", "all"))] = in_scope_kind + 1
+                hit = (in_scope_kind == f["nth"])
+            elif f.get("scope", "all") == "all":
                 hit = (k_all == f["op"])
             else:
                 hit = state["in_co"] and (k_co == f["op"])
@@ -43,7 +54,7 @@ def install(counter, fault=None):
                     counter["co"] += 1
                 if f["mode"] == "kill":
                     os._exit(9)
-                raise OSError(errno.ENOSPC, "injected failure at op %d (%s %s)" % (f["op"], kind, a))
+                raise OSError(errno.ENOSPC, "injected failure at op %s (%s %s)" % (f.get("op", "%s#%s" % (f.get("kind"), f.get("nth"))), kind, a))
         counter["n"] += 1
         TRACE_ALL.append([kind, a, b])
         if state["in_co"]:
